@@ -312,4 +312,32 @@ theorem C03_join_catches_up {ops : List Op} (h : AllowedRev ops) {r a : String} 
     have := C03_full_pull_catches_up now howner hfresh hlt _ (Nat.le_refl _) hH
     simpa [pull] using this
 
+/-- ... and therefore exactly the owner's state: same keys, values, deletion markers and
+versions (this is also "observers that synchronise afterwards end up with the same live state" of
+C17: the owner may have compacted any number of times before). -/
+theorem C03_join_exact {ops : List Op} (h : AllowedRev ops) {r a : String} {sr sa : CState}
+    (hr : (runRev ops).net.nodes.find r = some sr) (ha : (runRev ops).net.nodes.find a = some sa)
+    (hne : r ≠ a) (hent : (own sa).entries ≠ []) (now : Nat) :
+    ∃ sr' sa' V, (runRev (.join r a true now :: ops)).net.nodes.find r = some sr' ∧
+      (runRev (.join r a true now :: ops)).net.nodes.find a = some sa' ∧ own sa' = own sa ∧
+      sr'.nodes.find a = some V ∧ ∀ k, V.entries.find k = (own sa).entries.find k := by
+  obtain ⟨sr', V, h1, h2, h3⟩ := C03_join_catches_up h hr ha hne hent now
+  have hall : AllowedRev (.join r a true now :: ops) := ⟨h, trivial⟩
+  have hinv' := netInv_runRev _ hall
+  -- the owner's node after the step
+  have hinv := netInv_runRev ops h
+  have hpres : OwnPresent sa := (hinv.node a sa ha).recv.ownPresent
+  obtain ⟨ho1, hp1, _⟩ := C13_own_state_untouched now sa (localDelta sr) [] hpres
+  obtain ⟨_, _, ho2, _, _⟩ := C13_own_state_untouched now (applyDelta now sa (localDelta sr)).1 []
+    (sortDigest (digest sr)) hp1
+  have hfa : (runRev (.join r a true now :: ops)).net.nodes.find a =
+      some (applyDigest (applyDelta now sa (localDelta sr)).1 (sortDigest (digest sr))).1 := by
+    have hne' : ¬ r = a := hne
+    simp [runRev, GNet.step, Net.step, hr, ha, hne', Net.setNode, AMap.find_insert]
+  refine ⟨sr', _, V, h1, hfa, by rw [ho2, ho1], h2, ?_⟩
+  intro k
+  have hobs : Observes (runRev (.join r a true now :: ops)) r a V (own sa) :=
+    ⟨fun e => hne e.symm, ⟨sr', h1, h2⟩, ⟨_, hfa, by rw [ho2, ho1]⟩⟩
+  exact C02_caught_up_exact hall hobs h3 k
+
 end Piko
